@@ -73,6 +73,8 @@ package martian
 //@   ensures result != nil ==> b.gFailed
 //@   ensures result == nil ==> b.gFailed == old(b.gFailed)
 //@ extern iface io.Closer.Close
+//@   modifies self.bodyClosed
+//@   ensures self.bodyClosed
 //@ ghost field net.Conn.connClosed bool
 //@ extern iface net.Conn.Close
 //@   modifies nConnClose, self.connClosed
@@ -214,7 +216,7 @@ package martian
 //@   noframe
 //@   requires proxyReady(p) && ctxIdle(ctx) && sessionIdle(ctx.session) && conn != nil && brw != nil && brw.Writer != nil && brw.Reader != nil
 //@   requires !ctx.session.hijacked && secureInv(ctx.session)
-//@   modifies nReq, nRes, reqSeq, resSeq, lastReqErr, lastResErr, nUp, nWrite, bufio.Writer.gFlushed, bufio.Writer.gFailed, wroteErr, gotReq, up0, res0, wr0, didLink, tunnelUp, tunnelConn, dialedConn, net.Conn.connClosed, eofSignalN, nJoin, nCopy, closingSeen, nConnClose, nWarn, lastWarnHeader, ctxs[*], ctxmu.wheld, ctxmu.rheld
+//@   modifies nReq, nRes, reqSeq, resSeq, lastReqErr, lastResErr, nUp, nWrite, bufio.Writer.gFlushed, bufio.Writer.gFailed, wroteErr, gotReq, up0, res0, wr0, didLink, io.Closer.bodyClosed, tunnelUp, tunnelConn, dialedConn, net.Conn.connClosed, eofSignalN, nJoin, nCopy, closingSeen, nConnClose, nWarn, lastWarnHeader, ctxs[*], ctxmu.wheld, ctxmu.rheld
 //@   modifies http.Request.*, url.URL.*, http.Response.*, Session.hijacked, Session.secure, Session.conn, Session.brw, Context.skipRoundTrip, Context.skipLogging, Context.apiRequest
 //@   modifies sync.RWMutex.wheld, sync.RWMutex.rheld, dialN, lastDialed, lastDialErr, tls.Conn.gclosed, trafficshape.Conn.Context
 //@   ensures[every-started-copy-direction-is-joined; C04] nJoin - old(nJoin) == nCopy - old(nCopy)
@@ -238,16 +240,24 @@ package martian
 //@   at call 0 of ModifyRequest before assert[secure-session-request-carries-tls-state] session.secure ==> req.TLS != nil
 //@   at call 0 of ModifyRequest before assert[insecure-session-is-http] !session.secure ==> req.URL.Scheme == "http"
 //@   at call 0 of ModifyRequest before assert[authority-filled-from-host-header] req.URL.Host != "" || req.Host == ""
+//@   at call 0 of roundTrip before assert[no-upstream-contact-after-a-hijack; C02] !session.hijacked
+//@   at call 0 of ModifyResponse before assert[no-response-modifier-after-a-hijack; C02] !session.hijacked
 //@   at call 0 of ModifyResponse before assert[same-context-on-both-sides] res.Request == req && has(ctxs, req) && ctxs[req] == ctx && nRes == res0
 //@   at call 0 of Write before assert[response-modifier-ran-before-the-write] nRes == res0 + 1 && nWrite == wr0
 //@   at call 0 of Write before assert[close-decision-marks-the-response] (req.Close || closingSeen) ==> res.Close
 //@   at entry 0 before set didLink = false
+//@   at call 0 of readRequest after set result0.gBody0 = result0.Body
+//@   at return all before assert[request-body-drained-and-closed-when-the-exchange-ends; C01] req != nil ==> req.gBody0.bodyClosed
 //@   at call 0 of link after set didLink = true
 //@   at return all before assert[context-released] didLink ==> !has(ctxs, req)
 //@ ghost var up0 int
 //@ ghost var res0 int
 //@ ghost var wr0 int
 //@ ghost var didLink bool
+// the body of the request as it was read: closing it discards what the client still sends of it, so that the next
+// request is read from a clean connection
+//@ ghost field http.Request.gBody0 io.Closer
+//@ ghost field io.Closer.bodyClosed bool
 
 // dial: one upstream contact; a connection or an error.
 //@ extern func (*Proxy).dial
@@ -268,13 +278,24 @@ package martian
 //@   ensures[error-returns-nothing] result2 != nil ==> result0 == nil && result1 == nil
 //@   ensures[direct-connect-answers-200] p.proxyURL == nil && result2 == nil ==> result0.StatusCode == 200 && result0.Request == req
 
+// tgtW: the buffered writer towards the tunnel target; lastFlushed: the writer flushed last. Whatever still sits in the
+// target writer when the tunnel ends has to be flushed BEFORE the target connection is closed.
+//@ ghost var tgtW *bufio.Writer
+//@ ghost var lastFlushed *bufio.Writer
 //@ func (*Proxy).handleConnectRequest
 //@   serves C02 C03 C04 C05
 //@   noframe
+//@   safe index
+//@   modifies tgtW, lastFlushed
+//@   at entry 0 before set tgtW = nil
+//@   at call 0 of NewWriter after set tgtW = result
+//@   at call all of Flush after set lastFlushed = self
+//@   at call all of Close before assert[target-writer-flushed-before-the-target-connection-is-closed; C04] tunnelUp && self == tunnelConn && tgtW != nil ==> lastFlushed == tgtW
+//@   ensures[after-a-502-the-connection-keeps-serving; C03] p.mitm == nil && !tunnelUp && !session.hijacked && !wroteErr && !brw.Writer.gFailed ==> result == nil
 //@   requires proxyReady(p) && ctxIdle(ctx) && sessionIdle(session) && session == ctx.session && conn != nil && brw != nil && brw.Writer != nil && brw.Reader != nil
 //@   requires req != nil && req.URL != nil && req.Header != nil && has(ctxs, req) && ctxs[req] == ctx && allocated(req)
 //@   requires !session.hijacked && secureInv(session)
-//@   modifies nReq, nRes, reqSeq, resSeq, lastReqErr, lastResErr, nUp, nWrite, bufio.Writer.gFlushed, bufio.Writer.gFailed, wroteErr, gotReq, up0, res0, wr0, didLink, tunnelUp, tunnelConn, dialedConn, net.Conn.connClosed, eofSignalN, nJoin, nCopy, closingSeen, nConnClose, nWarn, lastWarnHeader, ctxs[*], ctxmu.wheld, ctxmu.rheld
+//@   modifies nReq, nRes, reqSeq, resSeq, lastReqErr, lastResErr, nUp, nWrite, bufio.Writer.gFlushed, bufio.Writer.gFailed, wroteErr, gotReq, up0, res0, wr0, didLink, io.Closer.bodyClosed, tunnelUp, tunnelConn, dialedConn, net.Conn.connClosed, eofSignalN, nJoin, nCopy, closingSeen, nConnClose, nWarn, lastWarnHeader, ctxs[*], ctxmu.wheld, ctxmu.rheld
 //@   modifies http.Request.*, url.URL.*, http.Response.*, Session.hijacked, Session.secure, Session.conn, Session.brw, Context.skipRoundTrip, Context.skipLogging, Context.apiRequest
 //@   modifies sync.RWMutex.wheld, sync.RWMutex.rheld, dialN, lastDialed, lastDialErr, tls.Conn.gclosed, trafficshape.Conn.Context
 //@   ensures[locks-released] tableIdle() && sessionIdle(session) && ctxIdle(ctx)
@@ -320,7 +341,7 @@ package martian
 //@   noframe
 //@   modifies nArm, nServe
 //@   requires proxyReady(p) && conn != nil && !p.connsMu.held
-//@   modifies nReq, nRes, reqSeq, resSeq, lastReqErr, lastResErr, nUp, nWrite, bufio.Writer.gFlushed, bufio.Writer.gFailed, wroteErr, gotReq, up0, res0, wr0, didLink, tunnelUp, tunnelConn, dialedConn, net.Conn.connClosed, eofSignalN, nJoin, nCopy, closingSeen, nConnClose, nWarn, lastWarnHeader, ctxs[*], ctxmu.wheld, ctxmu.rheld
+//@   modifies nReq, nRes, reqSeq, resSeq, lastReqErr, lastResErr, nUp, nWrite, bufio.Writer.gFlushed, bufio.Writer.gFailed, wroteErr, gotReq, up0, res0, wr0, didLink, io.Closer.bodyClosed, tunnelUp, tunnelConn, dialedConn, net.Conn.connClosed, eofSignalN, nJoin, nCopy, closingSeen, nConnClose, nWarn, lastWarnHeader, ctxs[*], ctxmu.wheld, ctxmu.rheld
 //@   modifies http.Request.*, url.URL.*, http.Response.*, Session.hijacked, Session.secure, Session.conn, Session.brw, Context.skipRoundTrip, Context.skipLogging, Context.apiRequest
 //@   modifies sync.RWMutex.wheld, sync.RWMutex.rheld, dialN, lastDialed, lastDialErr, tls.Conn.gclosed, trafficshape.Conn.Context, p.connsMu.held, net.Conn.connClosed
 //@   ensures[connection-closed-on-every-exit] conn.connClosed
